@@ -3,7 +3,10 @@
 Clauses decided (facts extracted from the AST, compared between the dual operators -- P11 on facts, not syntax):
 R1 operator duality: `Hardware.__add__`/`__sub__` return `Hardware(cores, memory, storage)` (arguments bound by
    the constructor signature) with `self.f (+|-) other.f` on the *same* field, and storage =
-   `_reduce_storages(<self normalised>, <other normalised>; Storage.__add__|__sub__)` in the order (self, other);
+   `_reduce_storages(<self normalised>, <other normalised>; Storage.__add__|__sub__)` in the order (self, other)
+   (the sequence may be a display with unpacking, `+`, `itertools.chain`; the fold may sit in a helper the storage
+   argument resolves to -- extract-method: every result of the helper is followed, its parameters stand for the
+   arguments of the entering call, at most 3 frames; anything else is reported as "not a _reduce_storages result");
    `Storage.__add__`/`__sub__` combine `size` with the same operator (self first), keep the mount point, unite
    `paths`, and both refuse different mount points before returning; `_reduce_storages` calls
    `operator(accumulated, disk)` in that argument order on the "already present" branch only and copies
@@ -17,8 +20,13 @@ R1 operator duality: `Hardware.__add__`/`__sub__` return `Hardware(cores, memory
 R2 comparison direction: `satisfies` may return a true value only when `self.cores >= other.cores` and
    `self.memory >= other.memory` (operators `>=`, guard table folded on the CFG); the storage clause is
    `all(...)` over every disk of *other's* normalised storage, comparing the size of *self's* normalised disk
-   with the *same mount point* using `>=`; a mount point missing in self raises (explicit `other - self` key
-   test that raises, or a plain subscript).
+   with the *same mount point* using `>=` -- or the loop that spells the quantifier out: a `for` over other's
+   normalised disks whose size test is decided on the CFG (under "every disk stands in relation < / == / > to
+   self's disk" a true return is reachable from inside the first iteration exactly for == and >; from the edge a
+   too-small disk takes no true return is reachable at all, otherwise the loop decides like any()); a mount point
+   missing in self raises (explicit key test -- `other - self` difference, `other <= self` subset, issubset /
+   issuperset, through temporaries and negation -- whose "missing" edge only raises and which dominates the
+   clause, or a plain subscript).  A storage loop that reports through a flag variable is refused (exit 2).
 R3 normal form: *every* result of `_normalize_storage` (all returns, bare returns and fall-through, enumerated on
    the CFG, values followed through temporaries and conditional expressions) reduces `self.storage.values()` with
    `Storage.__add__` -- the fold is what re-keys by mount point; accepted shortcuts are an empty map on paths a
@@ -45,10 +53,10 @@ from __future__ import annotations
 
 import ast
 
-from ..dataflow import origins
-from ..model import dotted, unparse
+from ..dataflow import defs_of, origins
+from ..model import dotted, parent, unparse
 from ..selftest import V
-from ._util_F import bind_args, builtin, call_is, compare_pair, edge_succ, fold3, guarded_reach, may_be_truthy, raises_only, strip_await
+from ._util_F import bind_args, builtin, call_is, compare_pair, edge_succ, enclosing_loops, fold3, guarded_reach, may_be_truthy, raises_only, resolved, strip_await
 
 MOD = "streamflow.core.scheduling"
 HW = f"{MOD}.Hardware"
@@ -141,9 +149,77 @@ def _check_field_op(ctx, rule, f, expr, field, want_op, me, other, what):
            message=f"{f.cls.name}.{f.name}: `{field}` is computed as `{_norm(expr)}` instead of `{me}.{field} {sym} {other}.{field}`")
 
 
-def _op_kind(p, f, expr) -> tuple[str | None, str]:
-    """'add' / 'sub' for the callable handed to _reduce_storages."""
+def _only_param(f, name: str) -> bool:
+    """`name` is a parameter of `f` that is never re-bound in its body."""
+    return name in f.params and all(d.kind == "param" for d in defs_of(f, name))
+
+
+def _root_name(f, name: str, env) -> str:
+    """The name of the operator's own frame that local `name` of helper `f` denotes (`env` = (caller, parameter ->
+    argument expression, caller's env), None in the operator itself); a text that matches no operand otherwise."""
+    if env is None:
+        return name
+    caller, bind, up = env
+    if _only_param(f, name) and name in bind:
+        e = strip_await(bind[name])
+        if isinstance(e, ast.Name):
+            return _root_name(caller, e.id, up)
+        return f"<{_norm(e)}>"
+    return f"<{name} in {f.name}>"
+
+
+def _helper_frames(p, f, call: ast.Call, env):
+    """Frames `(helper, env)` of the program functions a call may run, parameters bound to the argument
+    expressions by signature (the receiver of a bound method call binds `self`); None when a target is unknown
+    or the binding is not expressible (*args / **kwargs)."""
+    if any(isinstance(a, ast.Starred) for a in call.args) or any(k.arg is None for k in call.keywords):
+        return None
+    targets = resolved(p, f, call)
+    fn = call.func
+    if (all(q not in p.functions for q in targets) and f.cls is not None and isinstance(fn, ast.Attribute) and isinstance(fn.value, ast.Name) and fn.value.id in f.params
+            and any(isinstance(c.func, ast.Name) and c.func.id == "isinstance" and len(c.args) == 2 and dotted(c.args[0]) == fn.value.id and dotted(c.args[1]) == f.cls.name
+                    for c in f.calls())):
+        # an untyped operand that the frame tests with isinstance(<operand>, <own class>): a method of the own class
+        m = p.resolve_method(f.cls.qualname, fn.attr)
+        targets = [m.qualname] if m is not None else targets
+    if not targets:
+        return None
+    out = []
+    for q in targets:
+        h = p.functions.get(q)
+        if h is None or h.is_async != isinstance(parent(call), ast.Await) or isinstance(h.node, ast.Lambda):
+            return None
+        a = h.node.args
+        if a.vararg is not None or a.kwarg is not None or any(d in ("staticmethod", "classmethod", "property") for d in map(_deco_name, h.node.decorator_list)):
+            return None
+        pos = [x.arg for x in a.posonlyargs + a.args]
+        bound = h.cls is not None and bool(pos) and pos[0] == "self" and isinstance(call.func, ast.Attribute)
+        if bound:
+            recv = call.func.value
+            d = dotted(recv)
+            if d is not None and p.resolve_dotted(f.module, d) in p.classes:  # Class.method(obj, ...)
+                bound = False
+        bind = bind_args(call, h.node, skip_self=bound)
+        if bound:
+            if isinstance(call.func.value, ast.Call) and isinstance(call.func.value.func, ast.Name) and call.func.value.func.id == "super":
+                bind[pos[0]] = ast.Name(id=f.params[0], ctx=ast.Load()) if f.params else call.func.value
+            else:
+                bind[pos[0]] = call.func.value
+        out.append((h, (f, bind, env)))
+    return out
+
+
+def _deco_name(d) -> str:
+    d = d.func if isinstance(d, ast.Call) else d
+    return (dotted(d) or "").rsplit(".", 1)[-1]
+
+
+def _op_kind(p, f, expr, env=None) -> tuple[str | None, str]:
+    """'add' / 'sub' for the callable handed to _reduce_storages (a parameter of a helper frame is followed to the
+    argument of the call that entered the frame)."""
     for o in origins(f, expr):
+        if isinstance(o, ast.Name) and env is not None and _only_param(f, o.id) and o.id in env[1]:
+            return _op_kind(p, env[0], env[1][o.id], env[2])
         if isinstance(o, ast.Lambda):
             a = [x.arg for x in o.args.args]
             b = o.body
@@ -167,59 +243,117 @@ def _op_kind(p, f, expr) -> tuple[str | None, str]:
     return (None, "?")
 
 
-def _operand(f, expr, depth: int = 6):
+def _operand(f, expr, depth: int = 6, env=None):
     """(owner name, normalised?) of a storage-map expression: `X._normalize_storage()`, `X.normalized().storage`
     -> (X, True); `X.storage` -> (X, False); `.values()/.keys()/.items()`, list()/tuple()/set() are transparent;
-    locals are followed through their definitions."""
+    locals are followed through their definitions.  Inside a helper frame (`env`, see `_root_name`) the owner is
+    reported under the name it has in the operator that entered the frame, and a parameter that carries the map is
+    followed to the argument."""
     if depth <= 0:
         return None
     expr = strip_await(expr)
     if isinstance(expr, ast.NamedExpr):
-        return _operand(f, expr.value, depth - 1)
+        return _operand(f, expr.value, depth - 1, env)
     if isinstance(expr, ast.Starred):
-        return _operand(f, expr.value, depth - 1)
+        return _operand(f, expr.value, depth - 1, env)
     if isinstance(expr, ast.Name):
-        outs = {_operand(f, o, depth - 1) for o in origins(f, expr) if o is not expr}
+        if env is not None and _only_param(f, expr.id) and expr.id in env[1]:
+            return _operand(env[0], env[1][expr.id], depth - 1, env[2])
+        outs = {_operand(f, o, depth - 1, env) for o in origins(f, expr) if o is not expr}
         return outs.pop() if len(outs) == 1 else None
     if isinstance(expr, ast.Call):
         fn = expr.func
         if isinstance(fn, ast.Attribute):
             if fn.attr in ("values", "keys", "items", "copy") and not expr.args:
-                return _operand(f, fn.value, depth - 1)
+                return _operand(f, fn.value, depth - 1, env)
             if fn.attr == "_normalize_storage" and isinstance(fn.value, ast.Name):
-                return (fn.value.id, True)
+                return (_root_name(f, fn.value.id, env), True)
         if isinstance(fn, ast.Name) and fn.id in ("list", "tuple", "set", "frozenset", "dict", "iter") and len(expr.args) == 1:
-            return _operand(f, expr.args[0], depth - 1)
+            return _operand(f, expr.args[0], depth - 1, env)
         return None
     if isinstance(expr, ast.Attribute) and expr.attr == "storage":
         v = expr.value
         if isinstance(v, ast.Name):
-            return (v.id, False)
+            return (_root_name(f, v.id, env), False)
         if isinstance(v, ast.Call) and isinstance(v.func, ast.Attribute) and v.func.attr == "normalized" and isinstance(v.func.value, ast.Name):
-            return (v.func.value.id, True)
+            return (_root_name(f, v.func.value.id, env), True)
     return None
 
 
-def _pieces(f, expr) -> list[ast.AST]:
-    out: list[ast.AST] = []
+_CHAIN = ("itertools.chain", "chain")
+
+
+def _pieces(f, expr, env=None, depth: int = 6) -> list[tuple]:
+    """The storage maps concatenated into the sequence `expr`, in order, each as `(frame function, expression, env)`:
+    tuple / list displays with unpacking, `+`, `itertools.chain(...)`, `chain.from_iterable(<display>)`; a parameter
+    of a helper frame is followed to the argument."""
+    out: list[tuple] = []
     for o in origins(f, expr):
-        if isinstance(o, (ast.Tuple, ast.List)):
+        if isinstance(o, ast.Name) and env is not None and depth > 0 and _only_param(f, o.id) and o.id in env[1]:
+            out.extend(_pieces(env[0], env[1][o.id], env[2], depth - 1))
+        elif isinstance(o, (ast.Tuple, ast.List)):
             for e in o.elts:
-                out.extend(_pieces(f, e.value) if isinstance(e, ast.Starred) else [e])
+                out.extend(_pieces(f, e.value, env, depth) if isinstance(e, ast.Starred) else [(f, e, env)])
         elif isinstance(o, ast.BinOp) and isinstance(o.op, ast.Add):
-            out.extend(_pieces(f, o.left) + _pieces(f, o.right))
-        elif isinstance(o, ast.Call) and (dotted(o.func) or "") in ("itertools.chain", "chain"):
+            out.extend(_pieces(f, o.left, env, depth) + _pieces(f, o.right, env, depth))
+        elif isinstance(o, ast.Call) and isinstance(o.func, ast.Name) and o.func.id in ("list", "tuple", "iter") and len(o.args) == 1 and not o.keywords and depth > 0:
+            out.extend(_pieces(f, o.args[0], env, depth - 1))
+        elif isinstance(o, ast.Call) and (dotted(o.func) or "") in _CHAIN and not o.keywords:
             for a in o.args:
-                out.extend(_pieces(f, a))
+                out.extend(_pieces(f, a.value if isinstance(a, ast.Starred) else a, env, depth))
+        elif (isinstance(o, ast.Call) and (dotted(o.func) or "") in tuple(c + ".from_iterable" for c in _CHAIN) and len(o.args) == 1 and not o.keywords
+              and all(isinstance(x, (ast.Tuple, ast.List)) and not any(isinstance(e, ast.Starred) for e in x.elts) for x in origins(f, o.args[0]))):
+            for x in origins(f, o.args[0]):
+                for e in x.elts:
+                    out.extend(_pieces(f, e, env, depth))
         else:
-            out.append(o)
+            out.append((f, o, env))
     return out
 
 
-def _reduce_call(ctx, f, expr):
-    calls = [strip_await(o) for o in origins(f, expr)] if expr is not None else []
-    ok = len(calls) == 1 and isinstance(calls[0], ast.Call) and call_is(ctx.prog, f, calls[0], RED)
-    return calls[0] if ok else None
+def _operands(f, expr, env=None) -> list:
+    return [_operand(pf, x, env=pe) for pf, x, pe in _pieces(f, expr, env)]
+
+
+def _reduce_sites(ctx, f, expr, env=None, depth: int = 3):
+    """Every `_reduce_storages(...)` call the value `expr` of frame `f` may denote, as `(frame function, call, env)`;
+    None when some possible value is not such a call.  Temporaries are followed by def-use, a parameter of a helper
+    frame to its argument, and a call that resolves to program functions (extract-method: `self._combine(other, op)`)
+    into *every* result of each target -- all returns, a bare return or a fall-through make the answer None -- with
+    the parameters bound by signature (inlining bound: `depth` frames)."""
+    if expr is None:
+        return None
+    p = ctx.prog
+    out = []
+    for o in origins(f, expr):
+        o = strip_await(o)
+        if isinstance(o, ast.Name) and env is not None and _only_param(f, o.id) and o.id in env[1]:
+            sub = _reduce_sites(ctx, env[0], env[1][o.id], env[2], depth)
+            if sub is None:
+                return None
+            out.extend(sub)
+            continue
+        if not isinstance(o, ast.Call):
+            return None
+        if call_is(p, f, o, RED):
+            out.append((f, o, env))
+            continue
+        frames = _helper_frames(p, f, o, env) if depth > 0 else None
+        if not frames:
+            return None
+        for h, henv in frames:
+            g = h.cfg
+            if any(k in ("n", "t", "f") and g.nodes[a].kind != "return" and g.reachable(a) for a, k in g.pred[g.exit]):
+                return None
+            rets = [n for n in h.body_nodes() if isinstance(n, ast.Return) and any(g.reachable(i) for i in g.ids_of(n))]
+            if not rets:
+                return None
+            for r in rets:
+                sub = _reduce_sites(ctx, h, r.value, henv, depth - 1)
+                if sub is None:
+                    return None
+                out.extend(sub)
+    return out or None
 
 
 # =========================================================================== R1
@@ -376,20 +510,22 @@ def _hardware_operator(ctx, name: str, want_op, kind: str):
         args = bind_args(call, init, skip_self=True)
         for field in ("cores", "memory"):
             _check_field_op(ctx, "R1", f, args.get(field), field, want_op, me, other, f"Hardware.{name}")
-        rc = _reduce_call(ctx, f, args.get("storage"))
-        ctx.ob("R1", f"Hardware.{name}: storage is rebuilt by _reduce_storages", rc is not None, func=f, node=call, instance=f"Hardware.{name}:reduce",
+        sites = _reduce_sites(ctx, f, args.get("storage"))
+        ctx.ob("R1", f"Hardware.{name}: storage is rebuilt by _reduce_storages", sites is not None, func=f, node=call, instance=f"Hardware.{name}:reduce",
                message=f"Hardware.{name}: storage argument `{_norm(args.get('storage'))}` is not a _reduce_storages(...) result")
-        if rc is None:
-            continue
-        ra = bind_args(rc, p.func(RED).node)
-        got_kind, text = _op_kind(p, f, ra["operator"]) if "operator" in ra else (None, "<missing>")
-        ctx.ob("R1", f"Hardware.{name}: storages are combined with Storage.__{kind}__", got_kind == kind, func=f, node=rc, instance=f"Hardware.{name}:storage-op",
-               message=f"Hardware.{name}: storages are combined with `{text}` instead of Storage.__{kind}__")
-        ops = [_operand(f, x) for x in _pieces(f, ra["storages"])] if "storages" in ra else []
-        want = [(me, True), (other, True)]
-        ok = ops == want or (want_op is ast.Add and ops == want[::-1])
-        ctx.ob("R1", f"Hardware.{name}: operands are the normalised storages in the order (self, other)", ok, func=f, node=rc, instance=f"Hardware.{name}:storage-operands",
-               message=f"Hardware.{name}: _reduce_storages receives {ops} (owner, normalised) instead of {want}")
+        # each site is read in its own frame: the operator itself, or a helper the storage argument resolves to
+        # (extract-method), whose parameters stand for the arguments of the call that entered it
+        for hf, rc, env in sites or []:
+            via = "" if hf is f else f" (through {hf.qualname.rsplit('.', 1)[-1]})"
+            ra = bind_args(rc, p.func(RED).node)
+            got_kind, text = _op_kind(p, hf, ra["operator"], env) if "operator" in ra else (None, "<missing>")
+            ctx.ob("R1", f"Hardware.{name}: storages are combined with Storage.__{kind}__", got_kind == kind, func=f, node=rc if hf is f else call, instance=f"Hardware.{name}:storage-op",
+                   message=f"Hardware.{name}: storages are combined with `{text}` instead of Storage.__{kind}__{via}")
+            ops = _operands(hf, ra["storages"], env) if "storages" in ra else []
+            want = [(me, True), (other, True)]
+            ok = ops == want or (want_op is ast.Add and ops == want[::-1])
+            ctx.ob("R1", f"Hardware.{name}: operands are the normalised storages in the order (self, other)", ok, func=f, node=rc if hf is f else call, instance=f"Hardware.{name}:storage-operands",
+                   message=f"Hardware.{name}: _reduce_storages receives {ops} (owner, normalised) instead of {want}{via}")
 
 
 def _storage_operator(ctx, name: str, want_op):
@@ -561,9 +697,7 @@ def r2(ctx):
     #     every recognised comparison is evaluated under the relation, guards are folded on the CFG and a true
     #     return must be reachable exactly when both relations are == or >  (so `>` instead of `>=`, a flipped
     #     comparison, `or` instead of `and`, or an early `return False` on equality are all caught, whatever the shape)
-    LT, EQ, GT = -1, 0, 1
-    sem = {ast.GtE: lambda r: r >= EQ, ast.Gt: lambda r: r == GT, ast.LtE: lambda r: r <= EQ, ast.Lt: lambda r: r == LT,
-           ast.Eq: lambda r: r == EQ, ast.NotEq: lambda r: r != EQ}
+    sem = _SEM
     seen_fields: set[str] = set()
 
     def reach_true(rc, rm) -> bool:
@@ -590,13 +724,15 @@ def r2(ctx):
     rows = [f"cores {name[rc]}, memory {name[rm]}: true return {'reachable' if v else 'unreachable'}" for (rc, rm), v in table.items() if v != (rc >= EQ and rm >= EQ)]
     ctx.ob("R2", "a true result requires enough cores and enough memory", not rows, func=f, node=f.node, instance="satisfies:guards",
            message="satisfies: cores/memory guards do not implement `enough cores and enough memory`: " + "; ".join(rows[:4]), witness=rows)
-    # --- storage clause
+    # --- storage clause: `all(...)` over the requirement's disks, or the loop that spells the same quantifier out
     alls = []
     for r in truthy:
         for o in origins(f, r.ast.value):
             if isinstance(o, ast.Call) and builtin(p, f, o) in ("all", "any") and len(o.args) == 1 and isinstance(o.args[0], (ast.GeneratorExp, ast.ListComp)):
                 alls.append((r, o))
-    ctx.require(bool(alls), "C14.R2: the storage clause of satisfies (`all(...)` over the requirement's disks) was not found (shape not interpretable)")
+    loops = _clause_loops(f, tids)
+    ctx.require(bool(alls or loops), "C14.R2: the storage clause of satisfies (`all(...)` over the requirement's disks, or a loop over them that returns false on "
+                                     "the first disk that is too small) was not found (shape not interpretable)")
     for r, call in alls:
         ctx.ob("R2", "every mount point of the requirement must be satisfied (all)", builtin(p, f, call) == "all", func=f, node=call, instance="satisfies:all",
                message="satisfies aggregates the per-mount-point comparisons with any() instead of all()")
@@ -606,52 +742,201 @@ def r2(ctx):
         src = _operand(f, gen.iter)
         ctx.ob("R2", "the storage clause iterates the requirement's (other's) normalised disks", src == (other, True), func=f, node=gen.iter, instance="satisfies:iterates-other",
                message=f"satisfies iterates {src} (owner, normalised) instead of ({other!r}, True): mount points of the requirement can be skipped")
-        # the disk variable
-        dv = None
-        it = strip_await(gen.iter)
-        kind = it.func.attr if isinstance(it, ast.Call) and isinstance(it.func, ast.Attribute) else None
-        if kind == "values" and isinstance(gen.target, ast.Name):
-            dv = gen.target.id
-        elif kind == "items" and isinstance(gen.target, ast.Tuple) and len(gen.target.elts) == 2 and isinstance(gen.target.elts[1], ast.Name):
-            dv = gen.target.elts[1].id
+        dv = _disk_var(gen.iter, gen.target)
         ctx.require(dv is not None, "C14.R2: disk variable of the storage clause not found (iterate `.values()` or `.items()`)")
         cp = compare_pair(comp.elt)
         ctx.require(cp is not None and type(cp[1]) in _FLIP, "C14.R2: element of the storage clause is not a single comparison")
-        left, op, right = cp[0], type(cp[1]), cp[2]
-
-        def self_side(e):
-            return isinstance(e, ast.Attribute) and e.attr == "size" and isinstance(e.value, ast.Subscript)
-
-        if not self_side(left) and self_side(right):
-            left, right, op = right, left, _FLIP[op]
-        ctx.require(self_side(left), "C14.R2: storage comparison does not look a disk up by subscript (shape not interpretable)")
-        sub = left.value
-        owner = _operand(f, sub.value)
-        ctx.ob("R2", "the capacity side is self's normalised storage", owner == (me, True), func=f, node=sub, instance="satisfies:self-side",
-               message=f"satisfies looks the capacity up in {owner} (owner, normalised) instead of ({me!r}, True)")
-        ctx.ob("R2", "the capacity disk is looked up by the requirement disk's mount point", dotted(sub.slice) == f"{dv}.mount_point", func=f, node=sub, instance="satisfies:same-mount",
-               message=f"satisfies compares against `{_norm(sub)}`: not the disk with the requirement's mount point")
+        dc = _disk_cmp(f, comp.elt)
+        ctx.require(dc is not None, "C14.R2: storage comparison does not look a disk up by subscript (shape not interpretable)")
+        sub, op, right = dc
+        _capacity_side(ctx, f, me, dv, sub)
         ctx.ob("R2", "disk sizes are compared with >=", op is ast.GtE and dotted(right) == f"{dv}.size", func=f, node=comp.elt, instance="satisfies:size",
                message=f"satisfies compares disk sizes as `{_norm(comp.elt)}` (normalised operator `{_SYM[op]}`) instead of self >= other")
-        # --- missing mount points raise
-        diff = None
+        _missing_mount(ctx, f, me, other, g.ids_of(r.ast), sub)
+    for lp, dv, tests in loops:
+        head = g.ids_of(lp)
+        body = [b for h in head for b in edge_succ(g, h, "t")]
+        # quantifier: an iteration whose disk is too small (the others unknown) must end the search with a false
+        # result -- from the edge the disk tests take for such a disk no true return is reachable any more
+        # (`if enough: return True` / a `continue` on a small disk would make it any())
+        leak = []
+        for n, _hits in tests:
+            v = fold3(n.ast, _disk_atom(f, LT))
+            starts = [b for b, k in g.succ[n.id] if k in ("t", "f") and not (v is True and k == "f") and not (v is False and k == "t")]
+            hit = g.reach(starts, include_src=True) & tids
+            leak.extend(sorted(hit))
+        flags = [i for i in leak if not isinstance(g.nodes[i].ast.value, ast.Constant)]
+        ctx.require(not flags, "C14.R2: the storage loop of satisfies reports through a computed value (flag variable); only `return <constant>` on the first "
+                               "disk that is too small is interpreted (shape not interpretable)")
+        ctx.ob("R2", "every mount point of the requirement must be satisfied (all)", not leak, func=f, node=lp, instance="satisfies:all",
+               message="satisfies: a true result stays reachable after a disk of the requirement was found too small (the loop over the mount points decides like any() "
+                       "instead of all())", witness=g.describe(g.path(head[0], leak) or []) if leak and head else [])
+        src = _operand(f, lp.iter)
+        ctx.ob("R2", "the storage clause iterates the requirement's (other's) normalised disks", src == (other, True), func=f, node=lp.iter, instance="satisfies:iterates-other",
+               message=f"satisfies iterates {src} (owner, normalised) instead of ({other!r}, True): mount points of the requirement can be skipped")
+        sides_ok = True
+        for n, hits in tests:
+            for e, (sub, op, right) in hits:
+                _capacity_side(ctx, f, me, dv, sub)
+                sides_ok = sides_ok and dotted(right) == f"{dv}.size"
+        # direction, decided like the scalar guards: every disk of the requirement stands in the relation `rel` to
+        # self's disk with the same mount point; starting inside the first iteration (the requirement has a disk) a
+        # true return must be reachable exactly when rel is == or >
+        col = {rel: bool(guarded_reach(g, _disk_atom(f, rel), starts=body) & tids) for rel in (LT, EQ, GT)}
+        wrong = [f"self disk {name[r]} required disk: {'accepted' if v else 'rejected'}" for r, v in col.items() if v != (r >= EQ)]
+        first = tests[0][1][0][0]
+        ctx.ob("R2", "disk sizes are compared with >=", sides_ok and not wrong, func=f, node=first, instance="satisfies:size",
+               message=(f"satisfies decides disk sizes wrongly (`{_norm(first)}`): " + "; ".join(wrong)) if wrong else
+                       f"satisfies compares `{_norm(first)}`: the required side is not `{dv}.size`", witness=wrong)
+        _missing_mount(ctx, f, me, other, head, tests[0][1][0][1][0])
+
+
+LT, EQ, GT = -1, 0, 1
+_SEM = {ast.GtE: lambda r: r >= EQ, ast.Gt: lambda r: r == GT, ast.LtE: lambda r: r <= EQ, ast.Lt: lambda r: r == LT,
+        ast.Eq: lambda r: r == EQ, ast.NotEq: lambda r: r != EQ}
+
+
+def _disk_var(it, target) -> str | None:
+    """The variable that holds the disk when `target` iterates `<map>.values()` / `<map>.items()`."""
+    it = strip_await(it)
+    kind = it.func.attr if isinstance(it, ast.Call) and isinstance(it.func, ast.Attribute) else None
+    if kind == "values" and isinstance(target, ast.Name):
+        return target.id
+    if kind == "items" and isinstance(target, ast.Tuple) and len(target.elts) == 2 and isinstance(target.elts[1], ast.Name):
+        return target.elts[1].id
+    return None
+
+
+def _disk_cmp(f, e):
+    """(lookup subscript, operator with the looked-up disk on the left, other side) of a comparison
+    `<map>[<key>].size OP <x>` (either way round; the looked-up disk may sit in a temporary), else None."""
+    cp = compare_pair(e)
+    if cp is None or type(cp[1]) not in _FLIP:
+        return None
+
+    def lookup(x):
+        if not (isinstance(x, ast.Attribute) and x.attr == "size"):
+            return None
+        v = x.value
+        if isinstance(v, ast.Name):
+            defs = [o for o in origins(f, v) if o is not v]
+            v = defs[0] if len(defs) == 1 else v
+        return v if isinstance(v, ast.Subscript) else None
+
+    left, op, right = cp[0], type(cp[1]), cp[2]
+    ls, rs = lookup(left), lookup(right)
+    if ls is None and rs is not None:
+        ls, right, op = rs, left, _FLIP[op]
+    return (ls, op, right) if ls is not None else None
+
+
+def _disk_atom(f, rel, hits: list | None = None):
+    """Guard atoms under the witness `looked-up disk size  rel  compared size` (rel in LT/EQ/GT) for every disk
+    comparison (temporaries followed); everything else stays unknown.  `hits` collects the comparisons met."""
+
+    def atom(e, depth: int = 3):
+        if isinstance(e, ast.Name):
+            defs = [o for o in origins(f, e) if o is not e]
+            return fold3(defs[0], lambda x: atom(x, depth - 1)) if depth > 0 and len(defs) == 1 else None
+        dc = _disk_cmp(f, e)
+        if dc is None:
+            return None
+        if hits is not None:
+            hits.append((e, dc))
+        return _SEM[dc[1]](rel)
+
+    return atom
+
+
+def _clause_loops(f, tids):
+    """`for` loops of `f` over a storage map whose body tests a disk-size comparison and from which a true return is
+    reachable: (loop, disk variable, [(test node, [(comparison, (subscript, op, other side))])])."""
+    g = f.cfg
+    out = []
+    for lp in [n for n in f.body_nodes() if isinstance(n, ast.For)]:
+        if _operand(f, lp.iter) is None:
+            continue
+        dv = _disk_var(lp.iter, lp.target)
+        head = g.ids_of(lp)
+        if dv is None or not head or not (g.reach(head, include_src=True) & tids):
+            continue
+        tests = []
         for n in g.nodes.values():
-            if n.kind != "test":
-                continue
-            for e in origins(f, n.ast):
-                if isinstance(e, ast.BinOp) and isinstance(e.op, ast.Sub):
-                    lo, ro = _operand(f, e.left), _operand(f, e.right)
-                    if lo and ro and {lo[0], ro[0]} == {me, other}:
-                        diff = (n, lo, ro)
-        rid = g.ids_of(r.ast)
-        if diff is not None:
-            n, lo, ro = diff
-            ok = lo == (other, True) and ro == (me, True) and raises_only(g, edge_succ(g, n.id, "t")) and all(g.dominates(n.id, i) for i in rid)
-            ctx.ob("R2", "a mount point of the requirement that self lacks raises", ok, func=f, node=n.ast, instance="satisfies:missing-mount",
-                   message=f"satisfies: key test `{_norm(n.ast)}` must be (other's normalised keys) - (self's normalised keys), raise, and precede the result")
-        else:
-            ctx.ob("R2", "a mount point of the requirement that self lacks raises", True, func=f, node=sub, instance="satisfies:missing-mount")
-            ctx.observe("C14.R2: satisfies has no explicit missing-mount-point test; the plain subscript raises KeyError instead")
+            if n.kind == "test" and n.ast is not None and any(a is lp for a in enclosing_loops(n.ast, f.node)):
+                hits: list = []
+                fold3(n.ast, _disk_atom(f, LT, hits))
+                if hits:
+                    tests.append((n, hits))
+        if tests:
+            out.append((lp, dv, tests))
+    return out
+
+
+def _capacity_side(ctx, f, me: str, dv: str, sub: ast.Subscript):
+    owner = _operand(f, sub.value)
+    ctx.ob("R2", "the capacity side is self's normalised storage", owner == (me, True), func=f, node=sub, instance="satisfies:self-side",
+           message=f"satisfies looks the capacity up in {owner} (owner, normalised) instead of ({me!r}, True)")
+    ctx.ob("R2", "the capacity disk is looked up by the requirement disk's mount point", dotted(sub.slice) == f"{dv}.mount_point", func=f, node=sub, instance="satisfies:same-mount",
+           message=f"satisfies compares against `{_norm(sub)}`: not the disk with the requirement's mount point")
+
+
+def _key_test(f, e):
+    """(operand whose keys must all be present, operand that must hold them, truth of `e` when one is missing) of a
+    key-set test between two storage maps: `A - B` / `A.difference(B)` (true when missing), `A <= B`, `B >= A`,
+    `A.issubset(B)`, `B.issuperset(A)` (false when missing); operands as `_operand` reads them."""
+    e = strip_await(e)
+    need = have = None
+    val = True
+    if isinstance(e, ast.BinOp) and isinstance(e.op, ast.Sub):
+        need, have = e.left, e.right
+    elif isinstance(e, ast.Compare) and len(e.ops) == 1 and isinstance(e.ops[0], (ast.LtE, ast.GtE)):
+        need, have, val = (e.left, e.comparators[0], False) if isinstance(e.ops[0], ast.LtE) else (e.comparators[0], e.left, False)
+    elif isinstance(e, ast.Call) and isinstance(e.func, ast.Attribute) and len(e.args) == 1 and not e.keywords:
+        if e.func.attr == "difference":
+            need, have = e.func.value, e.args[0]
+        elif e.func.attr == "issubset":
+            need, have, val = e.func.value, e.args[0], False
+        elif e.func.attr == "issuperset":
+            need, have, val = e.args[0], e.func.value, False
+    if need is None:
+        return None
+    lo, ro = _operand(f, need), _operand(f, have)
+    return (lo, ro, val) if lo and ro else None
+
+
+def _missing_mount(ctx, f, me: str, other: str, anchor_ids, sub):
+    """A mount point of the requirement that self lacks raises: an explicit key test (other's normalised keys not
+    all among self's normalised keys -- set difference, subset comparison, issubset/issuperset, through temporaries
+    and negation) whose `missing` edge only raises and which dominates the clause, or a plain subscript."""
+    g = f.cfg
+    found = None
+    for n in g.nodes.values():
+        if n.kind != "test" or n.ast is None:
+            continue
+        hits: list = []
+
+        def atom(e, depth: int = 3, _hits=hits):
+            if isinstance(e, ast.Name):
+                defs = [o for o in origins(f, e) if o is not e]
+                return fold3(defs[0], lambda x: atom(x, depth - 1)) if depth > 0 and len(defs) == 1 else None
+            kt = _key_test(f, e)
+            if kt is None or {kt[0][0], kt[1][0]} != {me, other}:
+                return None
+            _hits.append(kt)
+            return kt[2]
+
+        v = fold3(n.ast, atom)
+        if hits:
+            found = (n, hits, v)
+    if found is not None:
+        n, hits, v = found
+        ok = (all(lo == (other, True) and ro == (me, True) for lo, ro, _ in hits) and v is not None and raises_only(g, edge_succ(g, n.id, "t" if v else "f"))
+              and all(g.dominates(n.id, i) for i in anchor_ids))
+        ctx.ob("R2", "a mount point of the requirement that self lacks raises", ok, func=f, node=n.ast, instance="satisfies:missing-mount",
+               message=f"satisfies: key test `{_norm(n.ast)}` must test other's normalised keys against self's normalised keys (difference / subset), raise when one is missing, and precede the result")
+    else:
+        ctx.ob("R2", "a mount point of the requirement that self lacks raises", True, func=f, node=sub, instance="satisfies:missing-mount")
+        ctx.observe("C14.R2: satisfies has no explicit missing-mount-point test; the plain subscript raises KeyError instead")
 
 
 # =========================================================================== R3
@@ -794,7 +1079,7 @@ def _normalize_storage_results(ctx):
            message="_normalize_storage: " + "; ".join(bad), witness=witness)
     for r, rc in folds:
         ra = bind_args(rc, p.func(RED).node)
-        ops = [_operand(f, x) for x in _pieces(f, ra["storages"])] if "storages" in ra else []
+        ops = _operands(f, ra["storages"]) if "storages" in ra else []
         ctx.ob("R3", "_normalize_storage folds every storage of self", ops == [(me, False)], func=f, node=rc, instance="normalize:source",
                message=f"_normalize_storage folds {ops} instead of self.storage.values()")
         kind, text = _op_kind(p, f, ra["operator"]) if "operator" in ra else (None, "<missing>")
@@ -886,6 +1171,31 @@ HADD, HSUB, SAT = f"{HW}.__add__", f"{HW}.__sub__", f"{HW}.satisfies"
 SADD, SSUB = f"{ST}.__add__", f"{ST}.__sub__"
 NORM = f"{HW}._normalize_storage"
 
+# extract-method shape of the storage fold (class text): the operator hands its operands to a shared private helper
+_SUB_INLINE = ("_reduce_storages((*self._normalize_storage().values(), *other._normalize_storage().values()), Storage.__sub__.__call__))\n\n"
+               "    def _normalize_storage(self)")
+_SUB_HELPER = ("self._combine_storage(other, Storage.__sub__.__call__))\n\n"
+               "    def _combine_storage(self, other: Hardware, operator):\n"
+               "        return _reduce_storages(itertools.chain(self._normalize_storage().values(), other._normalize_storage().values()), operator)\n\n"
+               "    def _normalize_storage(self)")
+# guard-clause / explicit-loop shape of satisfies
+_SAT_NESTED = ("    if self.cores >= other.cores and self.memory >= other.memory:\n"
+               "        if set((other_norm := other._normalize_storage()).keys()) - set((self_norm := self._normalize_storage()).keys()):\n"
+               "            raise WorkflowExecutionException(f'Invalid `Hardware` comparison: {self} should contain all the storage included in {other}.')\n"
+               "        return all((self_norm[other_disk.mount_point].size >= other_disk.size for other_disk in other_norm.values()))\n"
+               "    else:\n"
+               "        return False")
+_SAT_LOOP = ("    if not (self.cores >= other.cores and self.memory >= other.memory):\n"
+             "        return False\n"
+             "    other_norm = other._normalize_storage()\n"
+             "    self_norm = self._normalize_storage()\n"
+             "    if not other_norm.keys() <= self_norm.keys():\n"
+             "        raise WorkflowExecutionException('missing storage')\n"
+             "    for other_disk in other_norm.values():\n"
+             "        if not self_norm[other_disk.mount_point].size >= other_disk.size:\n"
+             "            return False\n"
+             "    return True")
+
 VARIANTS = [
     # ---- R1
     V("__sub__ adds memory", FILE, HSUB, "self.memory - other.memory", "self.memory + other.memory", "R1", control=True),
@@ -920,6 +1230,13 @@ VARIANTS = [
       "if self.cores >= other.cores:\n        return Hardware(self.cores - other.cores,", "R1"),
     V("Storage.__sub__ fast path drops other's paths", FILE, SSUB, "return Storage(mount_point=self.mount_point,",
       "if other.size == 0:\n        return self\n    return Storage(mount_point=self.mount_point,", "R1"),
+    V("__sub__ through an extracted helper that chains the operands the wrong way round", FILE, HW, _SUB_INLINE,
+      _SUB_HELPER.replace("chain(self._normalize_storage().values(), other._normalize_storage().values())", "chain(other._normalize_storage().values(), self._normalize_storage().values())"), "R1"),
+    V("__sub__ hands Storage.__add__ to the extracted helper", FILE, HW, _SUB_INLINE, _SUB_HELPER.replace("other, Storage.__sub__.__call__", "other, Storage.__add__.__call__"), "R1"),
+    V("__sub__ calls the extracted helper on the subtrahend", FILE, HW, _SUB_INLINE, _SUB_HELPER.replace("self._combine_storage(other, ", "other._combine_storage(self, "), "R1"),
+    V("extracted helper ignores the operator it is given", FILE, HW, _SUB_INLINE, _SUB_HELPER.replace("other._normalize_storage().values()), operator)", "other._normalize_storage().values()), Storage.__add__.__call__)"), "R1"),
+    V("extracted helper has a path that is not a fold", FILE, HW, _SUB_INLINE,
+      _SUB_HELPER.replace("        return _reduce_storages(itertools", "        if not other.cores:\n            return self._normalize_storage()\n        return _reduce_storages(itertools"), "R1"),
     # ---- R2
     V("satisfies uses > for cores", FILE, SAT, "self.cores >= other.cores", "self.cores > other.cores", "R2", control=True),
     V("satisfies compares memory the wrong way", FILE, SAT, "self.memory >= other.memory", "self.memory <= other.memory", "R2"),
@@ -931,6 +1248,17 @@ VARIANTS = [
     V("satisfies key test the wrong way round", FILE, SAT, "if set((other_norm := other._normalize_storage()).keys()) - set((self_norm := self._normalize_storage()).keys()):",
       "if set((self_norm := self._normalize_storage()).keys()) - set((other_norm := other._normalize_storage()).keys()):", "R2"),
     V("satisfies uses raw storage of other", FILE, SAT, "(other_norm := other._normalize_storage())", "(other_norm := other.storage)", "R2"),
+    V("satisfies as a loop: disk sizes with >", FILE, SAT, _SAT_NESTED, _SAT_LOOP.replace(".size >= other_disk.size", ".size > other_disk.size"), "R2"),
+    V("satisfies as a loop: negation of the size test dropped", FILE, SAT, _SAT_NESTED, _SAT_LOOP.replace("if not self_norm[", "if self_norm["), "R2"),
+    V("satisfies as a loop: any() spelled out", FILE, SAT, _SAT_NESTED,
+      _SAT_LOOP.replace("if not self_norm[other_disk.mount_point].size >= other_disk.size:\n            return False\n    return True",
+                        "if self_norm[other_disk.mount_point].size >= other_disk.size:\n            return True\n    return False"), "R2"),
+    V("satisfies as a loop: a small disk is skipped", FILE, SAT, _SAT_NESTED, _SAT_LOOP.replace("            return False\n    return True", "            continue\n    return True"), "R2"),
+    V("satisfies as a loop over self's disks", FILE, SAT, _SAT_NESTED, _SAT_LOOP.replace("in other_norm.values()", "in self_norm.values()"), "R2"),
+    V("satisfies as a loop: wrong mount point", FILE, SAT, _SAT_NESTED, _SAT_LOOP.replace("self_norm[other_disk.mount_point]", "self_norm[os.sep]"), "R2"),
+    V("satisfies: subset key test the wrong way round", FILE, SAT, _SAT_NESTED, _SAT_LOOP.replace("other_norm.keys() <= self_norm.keys()", "self_norm.keys() <= other_norm.keys()"), "R2"),
+    V("satisfies: subset key test raises when nothing is missing", FILE, SAT, _SAT_NESTED, _SAT_LOOP.replace("if not other_norm.keys() <=", "if other_norm.keys() <="), "R2"),
+    V("satisfies as a loop: raw storage of other", FILE, SAT, _SAT_NESTED, _SAT_LOOP.replace("other_norm = other._normalize_storage()", "other_norm = other.storage"), "R2"),
     # ---- R3
     V("normalized bypasses _normalize_storage", FILE, f"{HW}.normalized", "storage=self._normalize_storage()", "storage=self.storage", "R3", control=True),
     V("_normalize_storage keeps the max", FILE, f"{HW}._normalize_storage", "Storage.__add__.__call__", "Storage.__or__.__call__", "R3"),
@@ -951,6 +1279,22 @@ VARIANTS = [
     V("_normalize_storage fast path through a temporary keyed by bind", FILE, NORM, "return _reduce_storages(",
       "quick = {d.bind: d for d in self.storage.values()}\n    if self.is_normalized():\n        return quick\n    return _reduce_storages(", "R3"),
     # ---- benign
+    V("storage fold extracted into a shared private helper, itertools.chain instead of unpacking (B19-2)", FILE, HW, _SUB_INLINE, _SUB_HELPER, None),
+    V("extracted helper: temporaries, keyword call", FILE, HW, _SUB_INLINE,
+      _SUB_HELPER.replace("self._combine_storage(other, Storage.__sub__.__call__)", "self._combine_storage(operator=Storage.__sub__.__call__, other=other)")
+      .replace("        return _reduce_storages(itertools.chain(self._normalize_storage().values(), other._normalize_storage().values()), operator)",
+               "        mine = self._normalize_storage()\n        theirs = other._normalize_storage()\n        disks = list(itertools.chain(mine.values(), theirs.values()))\n        merged = _reduce_storages(disks, operator)\n        return merged"), None),
+    V("itertools.chain in __add__", FILE, HADD, "(*self._normalize_storage().values(), *other._normalize_storage().values())",
+      "itertools.chain(self._normalize_storage().values(), other._normalize_storage().values())", None),
+    V("satisfies: guard clause, loop with early return, subset key test, no walrus (B19-3)", FILE, SAT, _SAT_NESTED, _SAT_LOOP, None),
+    V("satisfies as a loop: `<` instead of `not >=`, operands flipped, disk in a temporary, for-else", FILE, SAT, _SAT_NESTED,
+      _SAT_LOOP.replace("        if not self_norm[other_disk.mount_point].size >= other_disk.size:\n            return False\n    return True",
+                        "        mine = self_norm[other_disk.mount_point]\n        if other_disk.size > mine.size:\n            return False\n    else:\n        return True"), None),
+    V("satisfies as a loop over items(), key test with issubset in a temporary", FILE, SAT, _SAT_NESTED,
+      _SAT_LOOP.replace("for other_disk in other_norm.values()", "for _mount, other_disk in other_norm.items()")
+      .replace("    if not other_norm.keys() <= self_norm.keys():", "    known = set(other_norm).issubset(self_norm.keys())\n    if not known:"), None),
+    V("satisfies: subset key test in front of the all()", FILE, SAT, "if set((other_norm := other._normalize_storage()).keys()) - set((self_norm := self._normalize_storage()).keys()):",
+      "other_norm = other._normalize_storage()\n        self_norm = self._normalize_storage()\n        if not self_norm.keys() >= other_norm.keys():", None),
     V("_normalize_storage returns a copy when already in normal form", FILE, NORM, "return _reduce_storages(",
       "if self.is_normalized():\n        return dict(self.storage)\n    return _reduce_storages(", None),
     V("_normalize_storage: normal-form shortcut through temporaries, inverted test, single return", FILE, NORM,
